@@ -144,6 +144,9 @@ pub fn swarm(rng: &mut Rng, profile: Profile) -> GenCfg {
         }
         Profile::Batches => {
             cfg.wb = [15, 45, 2, 38];
+            // delete / re-create cycles: two incarnations' batches on one name in the same WAL
+            cfg.w[0] = 9;
+            cfg.w[1] = 7;
             cfg.n_ops = 4 + rng.usize_below(12);
             cfg.align_permille = 500;
             cfg.w[4] = 1;
@@ -310,6 +313,11 @@ impl Gen {
                         }
                         2 => {
                             let cand = (1u64 << 62) - 1 - rng.below(1000);
+                            if cand > mq.next { cand } else { mq.next + 1 }
+                        }
+                        // beyond the sign bit (the statements speak of positions below 2^62; the API takes any u64)
+                        3 if rng.chance(1, 3) => {
+                            let cand = (1u64 << 63) + rng.below(1 << 20);
                             if cand > mq.next { cand } else { mq.next + 1 }
                         }
                         _ => mq.next + 1 + rng.below(1000),
